@@ -21,6 +21,8 @@ S(t, v) == [t |-> t, v |-> v]
 Scalars8 == <<S("null", ""), S("bool", "true"), S("int", "0"), S("int", "1"), S("float", "1.5"), S("str", "a"), S("str", "ab"), S("str", "1")>>
 Scalars5 == <<S("null", ""), S("int", "1"), S("float", "1.5"), S("str", "a"), S("str", "1")>>
 Scalars3 == <<S("null", ""), S("int", "1"), S("str", "a")>>
+\* falsy scalars (0, false, the empty string) next to a truthy one: members a careless truth test confuses with "absent" (C15)
+ScalarsFalsy == <<S("int", "0"), S("bool", "false"), S("str", ""), S("int", "1")>>
 \* numbers that are equal across spellings and kinds: the boundary cells of <, <=, >, >=, = (C12's rules inside whole queries)
 ScalarsNum == <<S("int", "1"), S("float", "1.0"), S("float", "1.5"), S("str", "1"), S("int", "2")>>
 Keys4 == <<S("str", "a"), S("str", "b"), S("int", "0"), S("str", "0")>>
